@@ -403,7 +403,7 @@ int main(int argc, char** argv) {
         std::vector<std::string> a = split(line, ' ');
         if (a.empty()) continue;
         std::string r = guarded([&]() { return run(a); });
-        fputs(r.c_str(), stdout); fputc('\n', stdout);
+        fputs(r.c_str(), stdout); fputc('\n', stdout); fflush(stdout);
     }
     return 0;
 }
